@@ -4,6 +4,9 @@ go 1.20
 
 require github.com/ecodeclub/ekit v0.0.0
 
+// linearizability checker used by the C06/C07 stress oracles (module cache only; GOPROXY=off)
+require github.com/anishathalye/porcupine v1.3.0
+
 require golang.org/x/exp v0.0.0-20231006140011-7918f672742d // indirect
 
 replace github.com/ecodeclub/ekit => /repo
